@@ -23,7 +23,7 @@ RULE = ("one evaluation = one generated history (2-4 client sessions, up to 40 o
 COMPONENTS = {"real": ["subsequence/subsequencealignment.py (SubsequenceAlignment, SAMatch, generators)", "dtw.warping_paths / warping_paths_fast",
                        "dtw_ndim.warping_paths(_fast)", "dtw.best_path", "C engine when use_c"],
               "stub": ["client sessions and their interleaving (seeded scheduler)", "reference model: brute-force subsequence DTW in /verif/sim/models/dtw_ref.py"]}
-ASSUMPTIONS = ["bounds: mostly query length 1..6 and series length 1..12 (one history in 12: query 6..12, series 13..40, up to ~60 ops), ndim 1..2",
+ASSUMPTIONS = ["bounds: mostly query length 1..6 and series length 1..12 (one history in 12: query 1..12, series 13..48, up to ~60 ops; a third of all series are plateau-rich), ndim 1..2",
                "index/segment comparisons against the fresh twin are skipped when the matching function has near-ties (< 1e-7); values use rel. tol 1e-9"]
 TOL = 1e-9
 
@@ -46,10 +46,17 @@ def gen_history(st):
         return [val() for _ in range(L)]
 
     big = rng.below(12) == 0         # swarm sizing: one history in 12 uses long inputs
-    lq = 6 + rng.below(7) if big else 1 + rng.below(6)
-    ls = 13 + rng.below(28) if big else 1 + rng.below(12)
+    lq = 1 + rng.below(12) if big else 1 + rng.below(6)          # long series also with SHORT queries (far end points, stretched matches)
+    ls = 13 + rng.below(36) if big else 1 + rng.below(12)
     query = series(lq)
     ser = series(ls)
+    if rng.below(3) == 0:
+        # plateau-rich series: values repeated in runs, so that optimal alignments stretch over many samples
+        out = []
+        while len(out) < ls:
+            v = series(1)[0]
+            out.extend([copy.deepcopy(v) for _ in range(1 + rng.below(8 if big else 3))])
+        ser = out[:ls]
     if rng.below(3) == 0 and ls >= lq:
         # plant the query (so that exact matches and repeats exist)
         at = rng.below(ls - lq + 1)
